@@ -76,4 +76,27 @@ byte, char, string and struct fields is proved without any assumption) -/
 def FloatOK (vk : VK) : Prop := ∀ k, vk = .flt k → FltStoreSound ∧ FltCopySound ∧ FltWidenWF
 
 
+/-! ### the value an accepted assignment reads back as (`get (set x v) = canon v`), non-float kinds
+
+(integers exactly, bools as 0 / 1, a `bytes` of length one as that byte, strings up to the first NUL, structs byte for
+byte, ctypes instances as the value they hold; `ByteArray` elements come back as `bytearray`s of length one).  For the
+float kinds "canon" is the *nearest representable value*, which is what `holds1` says - see § floats. -/
+def canonArr (vk : VK) (n : Nat) (key : Key) (v : PyVal) : Option (List Scalar) :=
+  match key, v with
+  | .idx _, .sc s => some [canonOne vk true s]
+  | .idx _, _ => none
+  | .whole, .arr _ _ _ (some raw) => some ((decodeItems vk n raw).map (canonOne vk true))
+  | _, _ => (seqItems v).map fun xs => xs.map (canonOne vk true)
+
+def canonVal (ty : FTy) (key : Key) (v : PyVal) : Option (List Scalar) :=
+  match ty, v with
+  | .int k, .sc s => some [canonOne (.int k) false s]
+  | .byte, .sc s => some [canonOne .byte false s]
+  | .strct t z, .sc s => some [canonOne (.strct t z) false s]
+  | .char, .sc (.str cs) => some [.str cs]
+  | .str _, .sc (.str cs) => some [.str (upToNul cs)]
+  | .arr _ (.flt _) _, _ => none
+  | .arr _ vk n, v => canonArr vk n key v
+  | _, _ => none
+
 end Pyrtma.Validators
